@@ -16,6 +16,8 @@ CHECKS = {
          "6", "bounded-exhaustive enumeration of array pairs with LCS oracle and hunk-interpreter replay"),
  "C07": ("all ordered pairs x 6 option sets: per-hunk provenance replay (removed values come from a, added values survive into b, nothing listed on both sides, no hunk where a and b agree) and every leave-one-out sub-diff applied by the real Patch",
          "6", "bounded-exhaustive enumeration of pairs; per-hunk provenance replay and leave-one-out on the real code"),
+ "C08": ("every set/multiset/SetKeys-mode diff of the universes (whole and hunk by hunk) applied by the real Patch to a, b, all permutations/duplications of a's arrays and all targets within 1 (thorough: 2) structural edits of a; accept/reject and result compared with a reference set/bag/keyed-member interpreter",
+         "6", "deviation-bounded exhaustive enumeration of (set-mode diff, target) with reference set/bag interpreter"),
 }
 NOT_YET = {}
 def main():
